@@ -381,6 +381,69 @@ func checkAddContentArgs(c *Ctx, p *core.Prog, fn *ssa.Function, what string) {
 			}
 		}
 		c.R.Check(ok, "R12.4", core.ShortFn(fn)+": AddContent receives path components 0, 1, 2 in order", p.Pos(call.Pos()), why, why)
+		if core.FuncPkgPath(fn) != v2pkg || len(args) < 5 {
+			continue
+		}
+		// R12.9 the content handed to AddContent is the whole file: the bytes ReadFile returned (through conversions)
+		cont := args[4]
+		for d := 0; d < 4; d++ {
+			if cv, isCv := cont.(*ssa.Convert); isCv {
+				cont = cv.X
+				continue
+			}
+			break
+		}
+		okC, whyC := false, "the content is not the result of ioutil.ReadFile / os.ReadFile of the collected path"
+		for _, tup := range callSiteTuples(p, []ssa.Value{core.Unspill(cont)}) {
+			v := tup[0]
+			for d := 0; d < 4; d++ {
+				if cv, isCv := v.(*ssa.Convert); isCv {
+					v = cv.X
+					continue
+				}
+				break
+			}
+			if ex, isEx := v.(*ssa.Extract); isEx && ex.Index == 0 {
+				if rc, isCall := ex.Tuple.(*ssa.Call); isCall {
+					if n := core.StaticCalleeName(&rc.Call); n == "io/ioutil.ReadFile" || n == "os.ReadFile" {
+						okC, whyC = true, "AddContent(..., contents) with contents, err := ReadFile(f)"
+					}
+				}
+			}
+		}
+		c.R.Check(okC, "R12.9", core.ShortFn(fn)+": AddContent receives the whole contents of the file", p.Pos(call.Pos()), whyC,
+			whyC+" (a slice of a buffer, a partial read): a corpus file that is larger than the buffer is silently truncated, so the loaded document differs from the one AddContent would be given")
+		// R12.10 every collected file of sufficient depth is added: between the loop over the files and AddContent only the
+		// segment-count test and error tests decide
+		bad := ""
+		for _, ft := range core.FactsAtInstr(call) {
+			cmp, isCmp := ft.AsCmp()
+			if isCmp {
+				// len(segments) >= 3 ; err == nil ; loop index < len(files)
+				if cst, isNil := cmp.Y.(*ssa.Const); isNil && (cmp.Op == token.EQL || cmp.Op == token.NEQ) && cst.Value == nil && cmp.X.Type().String() == "error" {
+					continue
+				}
+				if call2, isLen := cmp.X.(*ssa.Call); isLen {
+					if bi, isB := call2.Call.Value.(*ssa.Builtin); isB && bi.Name() == "len" {
+						continue
+					}
+				}
+				if call2, isLen := cmp.Y.(*ssa.Call); isLen {
+					if bi, isB := call2.Call.Value.(*ssa.Builtin); isB && bi.Name() == "len" {
+						continue
+					}
+				}
+				if _, isPhi := cmp.X.(*ssa.Phi); isPhi && (cmp.Op == token.LSS || cmp.Op == token.GEQ) {
+					continue // range loop bound
+				}
+			}
+			if _, isEx := ft.Cond.(*ssa.Extract); isEx {
+				continue // ok of a range/next
+			}
+			bad = eng.Describe(ft.Cond)
+		}
+		c.R.Check(bad == "", "R12.10", core.ShortFn(fn)+": every collected file of sufficient depth reaches AddContent", p.Pos(call.Pos()), "only the segment count and error tests stand between the loop over the files and AddContent",
+			"whether a file is added also depends on "+bad+" (e.g. on what the corpus already holds): AddContent replaces an existing document, LoadLicenses would skip it, so loading is no longer equivalent to AddContent for each file")
 	}
 }
 
